@@ -288,21 +288,22 @@ CHECKS = {
 
 # addenda after the seeded-change rounds (appended to the level text of each check)
 ADDENDA = {
- "C01": " Focus pools cover schematic TYPE variables, incl. two schematic variables of one name at two schematic types.",
- "C02": " The universe also varies the KIND of the args object on every primitive rule, citation counts, aliased item objects and equal twin items, and every check runs through non-global Theory objects (a side theory and a copy snapshot).",
+ "C03": " Sharing state machine spec/C03_Share.tla (heap of term nodes with shared sub-objects; Build, Hash, InplaceTyInst as coded / once / reference; invariants InstOnce, HashFresh, WellTypedInv) with histories replayed on real Term objects (C03_ShareTrace: InstOnce, TypePreserved, HashFresh, EqIsStructural); non-idempotent and swapping type instantiations.",
+ "C01": " Focus pools cover schematic TYPE variables, incl. two schematic variables of one name at two schematic types. One extra round of the two instantiation rules alone (action SaturateInst) in the focus configuration: sequents whose derivation already took three rule applications are instantiated.",
+ "C02": " The universe also varies the KIND of the args object on every primitive rule, citation counts, aliased item objects and equal twin items, and every check runs through non-global Theory objects (a side theory and a copy snapshot). HISTORY events: one Proof object checked first in a permissive context (global theory, gaps allowed), then - the same object - through the strict routes; judged by the same clauses.",
  "C04": " Also: all candidate steps of C18_Alethe through every veriT rule macro (every intended instance + stride-sampled near misses in quick, all in thorough), the C05 goal universe through the arithmetic macros, histories of `auto` invocations over the code's rule tables, histories of one theorem name whose statement changes, one premise at a time given a hypothesis of its own; clauses NoNewGaps and three clauses on the exported numbering.",
- "C05": " Magnitudes beyond 2^31 are judged with limb big integers (spec/lib/BigInt.tla, itself model-checked); compound natural exponents with truncated subtraction are in the universe.",
+ "C05": " Magnitudes beyond 2^31 are judged with limb big integers (spec/lib/BigInt.tla, itself model-checked); compound natural exponents with truncated subtraction are in the universe. Exact comparison of surds q + sgn(s)*sqrt|s| over limb rationals (spec/C05_Surd.tla, laws model-checked in C05_SurdLaws): comparisons of irrational constants built from rationals and one square root per side are judged, incl. near-equal ones up to 10^120.",
  "C06": " C06_Sem gives function equality its extensional meaning, exact sqrt on squares, a sign abstraction for exp/log and a per-goal real grid; histories in one process (fail-then-succeed, open/closed intervals), binder-name clashes, a route where Z3 gives up at once.",
- "C07": " Also proof-step ARGUMENTS for every signature parse_args knows (C07_Args), all unicode/highlight/width settings, and print HISTORIES (C07_History; clause PrintStable); polymorphic leaves under operators and inside list/set literals.",
+ "C07": " Also proof-step ARGUMENTS for every signature parse_args knows (C07_Args), all unicode/highlight/width settings, and print HISTORIES (C07_History; clause PrintStable); polymorphic leaves under operators and inside list/set literals. Systematic depth-3 family: right-open constructs (if, binders, lambda) as last operand of an operator application in non-final position.",
  "C08": " Histories over several theory objects, declared variables in the constraint family, schematic leaves (also sharing names with ordinary variables) in every family.",
  "C09": " Higher-order heads over mixtures of bound variables and (pre-)matched schematic variables, targets with maximally shared sub-term objects, ground self-matches (invariant SelfMatch).",
  "C10": " Binder-name clashes under every combinator, one theory object extended item by item (normalisers before/after the binary-arithmetic theorems), application atoms and units in propositional orbits.",
- "C11": " The S spec is a HISTORY machine of definitions (instances of overloaded constants must not overlap: invariant UniqueGround); non-uniform datatypes; statements of every type.",
+ "C11": " The S spec is a HISTORY machine of definitions (instances of overloaded constants must not overlap: invariant UniqueGround); non-uniform datatypes; statements of every type. Instance type T2E (disjoint from the others, same type constructors) and all triples of instance definitions in the quick tier.",
  "C12": " The PlusCal model includes the files themselves (create / remove / other imports / positional item edits) and six mechanism deviations; the driver performs the same operations on scratch copies of the library; clauses MissingFileIsError, position-aware ReturnsExpected; sibling-walk histories.",
  "C13": " Spec->code replay of all short line-edit behaviours (C13_LineEdit), generated sessions (sibling binders, nested existentials, cut/merge, introduction on a known antecedent, typed redexes, closed arithmetic), walks of depth 4 on copies.",
  "C14": " Clause StepChecks (the state left by a successful suggestion passes the full check); generated states and suggestion-driven walks with generated parameters; theory `function` always sampled.",
- "C15": " Families X op X (repeated operands) in every context; one representative per variable renaming in thorough.",
- "C16": " Ordered assertion histories (weak bound, pivot, tight bound on one linear form) besides multisets.",
+ "C15": " Families X op X (repeated operands) in every context; one representative per variable renaming in thorough. The atom NAME SPACE is a dimension of the formula universe (atoms named like the encoder's fresh variables x1, x2, ...); clause DefsFresh (definitional hypotheses: distinct fresh left sides, acyclic); reference with the same dimension and S-mutant reference_names_ignore_the_atoms.",
+ "C16": " Ordered assertion histories (weak bound, pivot, tight bound on one linear form) besides multisets. Boxed integer systems cut by thin slabs (deep branch-and-bound trees with recurring splits), 3000 of them through branch_and_bound alone.",
  "C17": " Path-shaped merge sets over 6-7 constants, queries on terms never added after every prefix, swapped arguments, merges with proof terms (clause HolGapFree).",
  "C18": " Nested anchors, compound literals as pivots and list items, binder names in cong candidates; `let` and `onepoint` are judged (discharged variables read universally).",
  "C19": " Histories of rule applications sharing one parent-less Context (C19_Ctx), identities with several side conditions under every subset of established conditions, limits of rational functions at infinity as extended rationals.",
